@@ -246,6 +246,40 @@ func genC08(r *Run) {
 				break
 			}
 		}
+		// the option-set decoders as entry points of their own (an option area or a sub-option area handed over in
+		// the caller's own buffer): Options.FromBytes and RelayOptions.FromBytes
+		if len(w) > 240 {
+			area := w[240:]
+			if e := bytes.IndexByte(area, 255); e >= 0 && i%3 != 2 {
+				area = area[:e]
+			}
+			for name, pat := range overwritePatterns(r, len(area), prev4) {
+				buf := append([]byte{}, area...)
+				var o dhcpv4.Options = dhcpv4.Options{}
+				var ro dhcpv4.RelayOptions
+				e1 := o.FromBytes(buf)
+				buf2 := append([]byte{}, area...)
+				e2 := ro.FromBytes(buf2)
+				b1, b2 := "", ""
+				if e1 == nil {
+					b1 = hx(o.ToBytes()) + o.String()
+				}
+				if e2 == nil {
+					b2 = hx(ro.ToBytes()) + ro.String()
+				}
+				copy(buf, pat)
+				copy(buf2, pat)
+				evals++
+				if e1 == nil && hx(o.ToBytes())+o.String() != b1 {
+					r.Fail("v4-input-aliased:"+name, "Options.FromBytes "+trunc(hx(area), 3000), trunc(firstDiff(b1, hx(o.ToBytes())+o.String()), 300))
+					break
+				}
+				if e2 == nil && hx(ro.ToBytes())+ro.String() != b2 {
+					r.Fail("v4-input-aliased:"+name, "RelayOptions.FromBytes "+trunc(hx(area), 3000), trunc(firstDiff(b2, hx(ro.ToBytes())+ro.String()), 300))
+					break
+				}
+			}
+		}
 		if p, err := dhcpv4.FromBytes(append([]byte{}, w...)); err == nil {
 			out := p.ToBytes()
 			ref := append([]byte{}, out...)
